@@ -20,7 +20,7 @@ GROUPS = [
     ("recursive", r"^recursive::Recursive\[", ["C12"]),
     ("nested", r"^combinator::NestedIn\[", ["C16"]),
     ("labels", r"^label::Labelled\[|^combinator::(MapErr|MapErrWithState)\[", ["C17", "C06"]),
-    ("text", r"^text::Padded\[|^regex::Regex\[|^number::Number\[", ["C14"]),
+    ("text", r"^text::Padded\[|^text::newline::|^regex::Regex\[|^number::Number\[", ["C14"]),
     ("extension", r"^extension::current::", ["C04"]),
     ("inputref", r"^input::InputRef::(parse|check)$", ["C20"]),
     # additional property memberships (the file is decided by the first match above)
